@@ -6,7 +6,7 @@ for d in benign/*/; do
   out=$(./benigncheck.sh "/verif/${d%/}" 2>&1); n=$(echo "$out" | tail -1 | sed 's/alarms=//')
   echo "$d alarms=$n"; [ "$n" != "0" ] && echo "$out" | head -20 && tot=$((tot+1))
 done
-for m in rename-locals compound negate; do
+for m in rename-locals compound negate swap-operands reverse-funcs; do
   out=$(./benignauto.sh $m 2>&1); echo "$out" | tail -1; echo "$out" | grep -q "alarms=0" || { echo "$out" | head -30; tot=$((tot+1)); }
 done
 echo "benign cases with alarms: $tot"
